@@ -528,6 +528,191 @@ class LogRelaxation(Unit):
 
 
 # ------------------------------------------------------------------------------------------------------
+# __init__ of both classes: which trajectory, PBC flag, time axis, per-particle wavenumber denominators and squared cutoffs
+
+
+def _mk_snaps(ctx, tag, T, N, d):
+    X = ctx.array(f"X{tag}", (T, N, d), "float", origin=f"positions of {tag}")
+    TS = ctx.array(f"ts{tag}", (T,), "int", origin=f"timesteps of {tag}")
+    PT = ctx.array(f"ptype{tag}", (T, N), "int", origin=f"particle types of {tag}")
+    cls = load_module(RU).get_class("SingleSnapshot")
+
+    def snap(n):
+        return new_obj(cls, {"positions": A.getitem(X, n), "nparticle": N, "timestep": TS.get((n,)), "particle_type": A.getitem(PT, n)}, frozen=True)
+    snaps = Ref(cur().alloc(Content("list", A.SeqVal(T, snap))), "list")
+    return ctx.obj(RU, "Snapshots", {"nsnapshots": T, "snapshots": snaps}), TS, PT
+
+
+class _Init(Unit):
+    module = MOD
+    prop = "C06"
+    cls = None
+
+    def cases(self):
+        return [f"d={d}/{w}" for d in (2, 3) for w in ("xu+x", "xu-only", "x-only")]
+
+    def setup(self, ctx, case):
+        d = int(case[2])
+        which = case.split("/")[1]
+        T, N = ctx.int("T"), ctx.int("N")
+        ctx.assume(T >= 2)
+        ctx.assume(N >= 1)
+        xu = x = None
+        T2 = T
+        if which in ("xu+x", "xu-only"):
+            xu, TS, PT = _mk_snaps(ctx, "u", T, N, d)
+        if which == "xu+x":
+            T2 = ctx.int("Tx")
+            ctx.assume(T2 >= 1)
+            x, _, _ = _mk_snaps(ctx, "w", T2, N, d)
+        if which == "x-only":
+            x, TS, PT = _mk_snaps(ctx, "w", T, N, d)
+        p = [ctx.int(f"ppp_{k}") for k in range(d)]
+        for pk in p:
+            ctx.assume(sv.and_(sv.cmp(">=", pk, 0), sv.cmp("<=", pk, 1)))
+        ppp = A.from_nested(p, "int")
+        ctx.state.origin[ppp.sid] = "argument ppp"
+        dia = {1: ctx.real("diameter_1"), 2: ctx.real("diameter_2")}
+        a, dt = ctx.real("a"), ctx.real("dt")
+        # precondition of the statement's "diameters map": every particle type of the first frame is a key of the map
+        qi = z3.Int("qi")
+        ctx.assume(z3.ForAll([qi], z3.Implies(z3.And(qi >= 0, qi < sv.znum(N)), z3.Or(sv.znum(PT.get((0, sv.SV(qi)))) == 1, sv.znum(PT.get((0, sv.SV(qi)))) == 2))))
+        self_ = ctx.obj(MOD, self.cls, {}, frozen=False)
+        k, i = ctx.int("k"), ctx.int("i")
+        # k / i are "an arbitrary row / particle": their ranges are hypotheses of every clause; stated as preconditions so that
+        # lazily evaluated elements (self.time is built from a comprehension over the snapshot list) are read inside the range
+        ctx.assume(_in(0, k, sv.sub(T, 1)))
+        ctx.assume(_in(0, i, N))
+        inp = dict(d=d, which=which, T=T, T2=T2, N=N, xu=xu, x=x, TS=TS, PT=PT, p=p, ppp=ppp, dia=dia, a=a, dt=dt, self_=self_, k=k, i=i)
+        return [self_], dict(xu_snapshots=xu, x_snapshots=x, dt=dt, ppp=ppp, diameters=ctx.pydict(dia), a=a, cal_type="slow", neighborfile="", max_neighbors=30), inp
+
+    def clause_names(self, case):
+        return ["ndim=len(ppp)", "dynamics-use-xu-when-given-else-x", "PBC-removal-iff-only-wrapped-coordinates", "x-kept-for-S4-only-when-both-given",
+                "time[k]=(ts[k+1]-ts[0])*dt", "diameters[i]=map[type_i]", "a2_cuts[i]=(a*diameter_i)^2", "no-neighbour-lists-without-file"]
+
+    def ensures(self, ctx, case, inp, out):
+        d, which, T, N = inp["d"], inp["which"], inp["T"], inp["N"]
+        o = inp["self_"].content
+        k, i = inp["k"], inp["i"]
+
+        def same(a, b):
+            return (a is None and b is None) or (isinstance(a, Ref) and isinstance(b, Ref) and a.sid == b.sid)
+        yield "ndim=len(ppp)", o.get("ndim") == d and o.get("cal_type") == "slow" and isinstance(o.get("ppp"), A.Arr) and o["ppp"].sid == inp["ppp"].sid
+        yield "dynamics-use-xu-when-given-else-x", same(o.get("snapshots"), inp["xu"] if which != "x-only" else inp["x"])
+        yield "PBC-removal-iff-only-wrapped-coordinates", o.get("PBC") is (which == "x-only")
+        yield "x-kept-for-S4-only-when-both-given", same(o.get("x_snapshots"), inp["x"] if which == "xu+x" else None)
+        tm = o.get("time")
+        okt = isinstance(tm, A.Arr) and tm.ndim == 1 and A.dim_eq_syntactic(tm.shape[0], sv.sub(T, 1))
+        TS = inp["TS"]
+        yield "time[k]=(ts[k+1]-ts[0])*dt", (sv.implies(_in(0, k, sv.sub(T, 1)), sv.cmp("==", tm.get((k,)), sv.mul(sv.sub(TS.get((sv.add(k, 1),)), TS.get((0,))), inp["dt"])))
+                                             if okt else False)
+        dm = o.get("diameters")
+        okd = isinstance(dm, A.Arr) and dm.ndim == 1 and A.dim_eq_syntactic(dm.shape[0], N)
+        ty = inp["PT"].get((0, i))
+        want = sv.ite(sv.cmp("==", ty, 1), inp["dia"][1], inp["dia"][2])
+        yield "diameters[i]=map[type_i]", (sv.implies(_in(0, i, N), sv.cmp("==", dm.get((i,)), want)) if okd else False)
+        a2 = o.get("a2_cuts")
+        oka = isinstance(a2, A.Arr) and a2.ndim == 1 and A.dim_eq_syntactic(a2.shape[0], N)
+        g_a2 = sv.implies(_in(0, i, N), sv.cmp("==", a2.get((i,)), sv.mul(sv.mul(inp["a"], want), sv.mul(inp["a"], want)))) if oka else False
+        yield "a2_cuts[i]=(a*diameter_i)^2", g_a2
+        yield "no-neighbour-lists-without-file", self.no_lists(o.get("neighborlists"))
+
+    def raises(self, ctx, case, inp, out):
+        if out.exc != "ValueError":
+            return None
+        if inp["which"] == "xu+x":
+            return sv.cmp("!=", inp["T"], inp["T2"])                      # incompatible trajectories
+        if inp["which"] == "x-only":
+            return sv.and_(*[sv.cmp("==", pk, 0) for pk in inp["p"]])     # wrapped coordinates need a periodic axis
+        return None
+
+    def replay(self, case, clause, model, seed):
+        return _replay_init(self.cls, case, seed)
+
+
+class DynInit(_Init):
+    qualname = "Dynamics.__init__"
+    cls = "Dynamics"
+
+    def no_lists(self, v):
+        return isinstance(v, Ref) and v.kind == "list" and not isinstance(v.content, A.SeqVal) and len(v.content) == 0
+
+
+class LogInit(_Init):
+    qualname = "LogDynamics.__init__"
+    cls = "LogDynamics"
+
+    def no_lists(self, v):
+        # the log variant stores an all-zero array, which relaxation() tests with .any()
+        return isinstance(v, A.Arr) and all(A.dim_conc(x) for x in v.shape) and all(sv.is_conc(x) and x == 0 for x in _flat(v))
+
+
+def _flat(a):
+    out = A.to_list(a)
+    while out and isinstance(out[0], list):
+        out = [y for x in out for y in x]
+    return out
+
+
+def _replay_init(clsname, case, seed):
+    import importlib
+
+    import numpy as np
+    d = int(case[2])
+    which = case.split("/")[1]
+    Dm = importlib.import_module(MOD)
+    cls = getattr(Dm, clsname)
+    rng = np.random.default_rng(seed + 99)
+    tried = 0
+    for rep in range(60):
+        T, N = int(rng.integers(2, 7)), int(rng.integers(1, 6))
+        w = _random_world(rng, d, False, False, False, T, N, "log" if clsname == "LogDynamics" else "linear")
+        su = _mk_snapshots(w["pos"], w["ts"], w["ptype"], None)
+        sx = _mk_snapshots(w["pos"] + 0.5, w["ts"], w["ptype"], None)
+        ppp = rng.integers(0, 2, size=d)
+        if which == "x-only" and not ppp.any():
+            ppp[0] = 1
+        kw = dict(xu_snapshots=su if which != "x-only" else None, x_snapshots=sx if which != "xu-only" else None, dt=w["dt"], ppp=ppp,
+                  diameters=w["diameters"], a=w["a"], cal_type="slow", neighborfile="", max_neighbors=30)
+        tried += 1
+        inputs = {"T": T, "N": N, "timesteps": w["ts"].tolist(), "particle_type": w["ptype"].tolist(), "diameters": w["diameters"], "a": w["a"], "dt": w["dt"], "ppp": ppp.tolist()}
+        try:
+            o = cls(**kw)
+        except Exception as e:  # noqa
+            return {"ran": True, "failed": True, "searched": tried, "inputs": inputs, "detail": f"raises {type(e).__name__}: {e}"}
+        bad = None
+        diam = np.array([w["diameters"][int(t)] for t in w["ptype"]])
+        if o.ndim != d:
+            bad = f"ndim = {o.ndim}"
+        elif o.snapshots is not (su if which != "x-only" else sx):
+            bad = "dynamics are not computed from xu when given (else x)"
+        elif o.PBC is not (which == "x-only"):
+            bad = f"PBC = {o.PBC} for {which}"
+        elif o.x_snapshots is not (sx if which == "xu+x" else None):
+            bad = "x_snapshots wrong"
+        elif not np.allclose(o.time, (w["ts"][1:] - w["ts"][0]) * w["dt"], rtol=1e-12, atol=0):
+            bad = f"time = {np.asarray(o.time).tolist()}, definition {((w['ts'][1:] - w['ts'][0]) * w['dt']).tolist()}"
+        elif not np.allclose(o.diameters, diam, rtol=1e-12, atol=0):
+            bad = f"diameters = {np.asarray(o.diameters).tolist()}, map gives {diam.tolist()}"
+        elif not np.allclose(o.a2_cuts, (w["a"] * diam) ** 2, rtol=1e-12, atol=0):
+            bad = f"a2_cuts = {np.asarray(o.a2_cuts).tolist()}, definition {((w['a'] * diam) ** 2).tolist()}"
+        elif clsname == "Dynamics" and o.neighborlists != []:
+            bad = "neighborlists not empty without a file"
+        elif clsname == "LogDynamics" and np.asarray(o.neighborlists).any():
+            bad = "neighborlists not all-zero without a file"
+        if bad:
+            return {"ran": True, "failed": True, "searched": tried, "from_model": False, "inputs": inputs, "detail": bad}
+    # the two documented refusals
+    for which2, kw2 in (("x-only/no-periodic-axis", dict(xu_snapshots=None, x_snapshots=sx, ppp=np.zeros(d, dtype=int))),):
+        try:
+            cls(dt=0.002, diameters=w["diameters"], a=0.3, **kw2)
+            return {"ran": True, "failed": True, "searched": tried, "inputs": {"case": which2}, "detail": "wrapped coordinates without a periodic axis are accepted"}
+        except ValueError:
+            pass
+    return {"ran": True, "failed": False, "searched": tried, "detail": "real __init__ agrees with the contract on every seeded input"}
+
+
+# ------------------------------------------------------------------------------------------------------
 # alpha2factor, cage_relative
 
 
@@ -881,7 +1066,7 @@ def _replay_relaxation(kind, case, clause, model, seed):
     return {"ran": True, "failed": False, "searched": tried, "detail": "real code agrees with the definitions on every seeded trajectory"}
 
 
-UNITS = [DynRelaxation(), LogRelaxation(), Alpha2Factor(), CageRelative()]
+UNITS = [DynRelaxation(), LogRelaxation(), DynInit(), LogInit(), Alpha2Factor(), CageRelative()]
 
 MANIFEST = {
     "text": "todo",
